@@ -17,7 +17,8 @@
 //	                              wrong-shape, short-batch, error-object, missing-result, null-result, wrong-type,
 //	                              wrong-number, out-of-range-item) and the call returned none
 //	get:wrong-length, get:wrong-number-{first,middle,last}, get:duplicate-tx
-//	<kind>:block-never-sent, <kind>:block-hash-never-sent, <kind>:header-not-as-sent, <kind>:unlinked-headers-accepted
+//	<kind>:block-never-sent, <kind>:block-hash-not-the-headers, <kind>:header-not-as-sent, <kind>:unlinked-headers-accepted
+//	{logs,receipts,traces}:items-without-one-full-blockhash-accepted, get:block-hash-not-the-items   (plans without headers)
 //	get:hash-overwritten-broken-link
 //	{logs,receipts,traces}:{misattached,sent-but-not-attached,attached-but-never-sent}[/mixed-block-response]
 //	logs:colliding-log-index-dropped   two different logs of one tx carry the same logIndex; eth.Logs.Add keeps the first
